@@ -1,5 +1,6 @@
 // C02 — igris::vector (primary header) and flat_map/flat_set over the host std::vector.
 #include "C02_common.h"
+#include <functional>
 #include "C02_flat.h"
 #include <igris/container/flat_map.h>
 #include <igris/container/flat_set.h>
@@ -24,6 +25,16 @@ static void flat_hosted(Src &s, Case &c)
         c02flat::flat_target<igris::flat_map<int, std::string>, igris::flat_set<int>, int, std::string>(s, c,
                                                                                                       "flat_map<int,string>/flat_set<int> (host vector)");
     }
+}
+
+static void flat_hosted_cmp(Src &s, Case &c)
+{
+    if (s.coin())
+        c02flat::flat_target<igris::flat_map<int, int, std::greater<int>>, igris::flat_set<int, std::greater<int>>, int, int, std::greater<int>>(
+            s, c, "flat_map<int,int,greater>/flat_set<int,greater> (host vector)");
+    else
+        c02flat::flat_target<igris::flat_map<std::string, int, std::greater<std::string>>, igris::flat_set<std::string, c02flat::NoCase>, std::string, int,
+                             std::greater<std::string>, c02flat::NoCase>(s, c, "flat_map<string,int,greater>/flat_set<string,NoCase> (host vector)");
 }
 
 #define VEC_RULE                                                                                                                        \
@@ -61,6 +72,9 @@ VP_TARGET("vector_tracked_big", vector_tracked_big, "igris::vector<Tracked> with
 VP_TARGET("vector_tracked", vector_tracked,
           "igris::vector<Tracked> (element owns heap memory and registers its lifetime: constructing over a live object, "
           "assigning to / moving from / reading / destroying a dead one, leaks and imbalance are failures): " VEC_RULE);
+VP_TARGET("flat_hosted_cmp", flat_hosted_cmp,
+          "flat_map / flat_set with a Compare other than std::less (std::greater for both; for flat_set also a case-insensitive string order under which 'b' and 'B' are one "
+          "key): histories and checks of flat_hosted against std::map / std::set with the same Compare");
 VP_TARGET("flat_hosted", flat_hosted,
           "flat_map / flat_set over the host std::vector, key/mapped types int and std::string: histories of insert, emplace, "
           "operator[] (read and write), set insert, clear, copy/assign, initializer lists with duplicate keys; after every "
